@@ -123,7 +123,7 @@ inline void parse_args(int argc, char** argv) {
 inline long opt_long(const char* k, long dflt) { auto it = g_args.opt.find(k); return it == g_args.opt.end() ? dflt : atol(it->second.c_str()); }
 
 // ------------------------------------------------------------------ failure reporting
-inline void write_fail_file(const char* cls, const char* msg) {
+__attribute__((no_sanitize("thread"))) inline void write_fail_file(const char* cls, const char* msg) {
   // raw syscalls and stack buffers only: this may run from a signal handler after heap corruption
   static char path[1024];
   static char buf[8192];
@@ -135,8 +135,8 @@ inline void write_fail_file(const char* cls, const char* msg) {
     if (write(fd, buf, n) < 0) {}
     for (int d : g_args.drop) { n = snprintf(buf, sizeof buf, "%d,", d); if (write(fd, buf, n) < 0) {} }
     if (write(fd, "\ndec=", 5) < 0) {}
-    const vsim::Decision* d; size_t nd = vsim::decisions(&d);
-    for (size_t i = 0; i < nd; i++) { n = snprintf(buf, sizeof buf, "%" PRIu64 ":%d ", d[i].opp, d[i].val); if (write(fd, buf, n) < 0) {} }
+    size_t nd = vsim::ndecisions();
+    for (size_t i = 0; i < nd; i++) { vsim::Decision d = vsim::decision_at(i); n = snprintf(buf, sizeof buf, "%" PRIu64 ":%d ", d.opp, d.val); if (write(fd, buf, n) < 0) {} }
     if (write(fd, "\nlog:\n", 6) < 0) {}
     vsim::dump_log(fd);
     close(fd);
